@@ -29,6 +29,9 @@ func init() {
 			for _, v := range res.Viol {
 				s += v.String() + "\n"
 			}
+			for _, n := range res.Notes {
+				s += "NOTE " + n.Site + " " + n.Detail + "\n"
+			}
 			return true, s
 		}
 		return false, ""
@@ -155,6 +158,64 @@ func init() {
 			cfg.NRes = 2 + r.Intn(4)
 			cfg.GetOutcome = [4]int{70, 12, 9, 9}
 			cfg.W = map[string]int{"sub": 24, "unsub": 24, "get": 10, "call": 3, "callres": 8, "new": 4, "auth": 3, "change": 4, "add": 2, "remove": 2, "delete": 1, "reaccess": 2}
+			return cfg
+		})
+	})
+	Register("C03", func(c *RunCtx) {
+		n := c.N(1600, 40000)
+		if c.Race {
+			n = c.N(200, 4000)
+		}
+		runHistories(c, n, "eventdense", func(i int, r *Rng) HistCfg {
+			cfg := generalCfg(i, r)
+			cfg.Conns = 1 + r.Intn(4)
+			cfg.NRes = 2 + r.Intn(4)
+			cfg.Steps = 30 + r.Intn(30)
+			cfg.Pct = []int{15, 40, 60}[r.Intn(3)]
+			cfg.W = map[string]int{"sub": 14, "unsub": 8, "get": 2, "callres": 2, "custom": 30, "change": 16, "add": 8, "remove": 5, "reaccess": 5, "delete": 1, "answer": 10, "quiesce": 2}
+			return cfg
+		})
+	})
+	Register("C09", func(c *RunCtx) {
+		n := c.N(1600, 40000)
+		if c.Race {
+			n = c.N(200, 4000)
+		}
+		runHistories(c, n, "lifecycle", func(i int, r *Rng) HistCfg {
+			cfg := generalCfg(i, r)
+			cfg.Conns = 1 + r.Intn(6)
+			cfg.NRes = 2 + r.Intn(5)
+			cfg.Metrics = true
+			cfg.UnsubDelayMs = []int{0, 0, 1, 5}[r.Intn(4)]
+			cfg.GetOutcome = [4]int{70, 12, 9, 9}
+			cfg.SitePct = map[string]int{"cache.evict": 60}
+			cfg.W = map[string]int{"sub": 22, "unsub": 18, "get": 8, "call": 6, "callres": 4, "change": 6, "add": 3, "remove": 3, "custom": 3, "delete": 3, "recreate": 2, "disconnect": 4, "answer": 10, "quiesce": 3}
+			return cfg
+		})
+	})
+	Register("C10", func(c *RunCtx) {
+		n := c.N(1600, 40000)
+		runHistories(c, n, "isolation", func(i int, r *Rng) HistCfg {
+			cfg := generalCfg(i, r)
+			cfg.Conns = 2 + r.Intn(5)
+			cfg.CIDTags = true
+			cfg.NRes = 4 + r.Intn(5)
+			cfg.W = map[string]int{"sub": 20, "unsub": 10, "get": 6, "call": 8, "callres": 5, "auth": 5, "new": 2, "token": 10, "change": 8, "add": 4, "remove": 3, "custom": 6, "reaccess": 3, "answer": 10, "quiesce": 3}
+			return cfg
+		})
+	})
+	Register("C11", func(c *RunCtx) {
+		n := c.N(1600, 40000)
+		if c.Race {
+			n = c.N(200, 4000)
+		}
+		runHistories(c, n, "disconnects", func(i int, r *Rng) HistCfg {
+			cfg := generalCfg(i, r)
+			cfg.Conns = 2 + r.Intn(4)
+			cfg.Mode = "burst"
+			cfg.Burst = 3 + r.Intn(10)
+			cfg.GetOutcome = [4]int{75, 10, 8, 7}
+			cfg.W = map[string]int{"sub": 22, "unsub": 8, "get": 8, "call": 6, "callres": 6, "new": 2, "auth": 2, "change": 8, "add": 4, "remove": 3, "custom": 5, "reaccess": 3, "token": 3, "disconnect": 10, "answer": 8, "quiesce": 2}
 			return cfg
 		})
 	})
